@@ -18,6 +18,7 @@ import (
 func TestC11(t *testing.T) {
 	r := vf.Begin(t, "C11")
 	defer r.End()
+	defer perturbReport(r)
 	r.Describe("PRNG scenarios in synctest bubbles. Connection level (NewConn/Write): 1-8 requests in flight (with and without bodies), GOAWAY(last-stream-id in {0, below, between, top, 2^31-1}, code in {NO_ERROR, PROTOCOL_ERROR, ENHANCE_YOUR_CALM}) placed before, among or after the partial responses, immediately followed by PING; the server then answers a PRNG subset of the streams <= last-stream-id in PRNG order (headers and data split across steps), "+
 		"stays or disconnects at a PRNG point, while new requests are issued concurrently. RoundTrip level (HostClient + ConfigureClient over TLS on the in-memory transport, scripted TLS server counting HEADERS per tag over every connection the client dials): GOAWAY / REFUSED_STREAM / RST_STREAM / connection loss at PRNG points. "+
 		"Monitors: (1) a tag's HEADERS reach a server at most once unless every earlier arrival was disclaimed (stream above a GOAWAY's last-stream-id, or REFUSED_STREAM); (2) no HEADERS arrive on a connection after the ACK of the PING that followed its GOAWAY; (3) a request above last-stream-id is never reported successful and is resolved by the next quiescent point, not at the timeout; "+
